@@ -18,6 +18,7 @@ def run(ctx):
     engine2_common.audit_transfer2(ctx, engine2_common.THEOREMS_SIMT2_C05)
     engine_common.run_engine(ctx, ["C05:"], n_quick=3000, n_thorough=60000)
     ms_common.run_ms(ctx, 'wait')
+    ms_common.run_clockjump(ctx, ["C05:"])
     ctx.assumptions.append("server time = the virtual clock; one sweep per elapsed second (what updateCurrentTime/checkTimeOut do)")
     ctx.cov["rule"] = ("seeded sequences with waits of 1..65535 s / minutes, bursts of up to 17 ticks, grants and cancels interleaved; monitor: TIMEOUT replies in [T, T+2] s of "
                        "virtual time, no queued request 2 s past its deadline; distinct_nontrivial = distinct sequences containing at least one grant")
